@@ -14,6 +14,8 @@ for d in sorted(os.listdir('/verif/seeded')):
         det += 1
         own += 1 if m['breaks_property'] in db else 0
         cell = '; '.join('%s: %s' % (pid, ', '.join(r)) for pid, r in sorted(db.items()))
+    elif m.get('superseded'):
+        cell = 'harmless on the repaired tree (superseded by a later fix: commit); every check is silent, as it must be'
     else:
         cell = '**not detected**'
     rows.append('| %s | %s | %s | %s |' % (d, m['summary'].replace('|', '\\|'), m['needs_to_manifest'].replace('|', '\\|'), cell.replace('|', '\\|')))
